@@ -7,7 +7,10 @@ import traceback
 def _wrap(args):
     fn, seed, kw = args
     try:
-        return fn(seed, **kw)
+        r = fn(seed, **kw)
+        for v in r.get('violations', []):
+            v[2]['seed_case'] = seed
+        return r
     except Exception as e:
         return {'error': f"{type(e).__name__}: {e}", 'traceback': traceback.format_exc()[-1200:], 'seed': seed}
 
